@@ -192,6 +192,9 @@ func (fr *Frame) call(v ssa.Value, cc *ssa.CallCommon, st *State, ins ssa.Instru
 				}
 				c.obligation("at-call", ac.C.Label, pos, "before the call to "+shortFuncName(name)+": "+ac.C.Src, st.reach, g, ac.C.Props)
 				st.reach = c.define("reach", "Bool", and(st.reach, g))
+				if ac.Always {
+					st.heap[atCallAlwaysKey(ac)] = "true"
+				}
 			}
 		}
 	}
@@ -902,3 +905,6 @@ func (fr *Frame) sortPermute(v ssa.Value, st *State) bool {
 	}
 	return true
 }
+
+// atCallAlwaysKey: the function-local boolean "the call matched by this at_call! clause has been executed".
+func atCallAlwaysKey(ac AtCall) string { return "loc:atcall:" + ac.Match + "|" + ac.C.Label }
